@@ -7,7 +7,7 @@ Open Scope N_scope.
 
 Definition gen_rules : rules :=
   Rules gen_follower_ack gen_follower_commit gen_stale_ack_ignored gen_vote_log_ok gen_prev_ok gen_commit_pick gen_commit_term_ok
-        gen_entries_need_prev gen_gap_refused.
+        gen_entries_need_prev gen_gap_refused gen_finalize_ok.
 
 (* what the harness observes of one real node: term, voted_for, role code (0 F, 1 C, 2 L),
    commit_index, log image *)
